@@ -149,7 +149,7 @@ CONTRADICTION = Ob("C02-X1", "R-PRED", "contradiction rule: no record the bigBed
 
 from ..obs import queries as QU
 SEARCH_ORDER = Ob("C03-O1", "R-DISC", "index search visits children depth-first in stored order (pop_front + reversed push_front); blocks appended in visit order; chromosome resolved by exact name", QU.ob_search_order, floor=4)
-CACHE = Ob("C03-C1", "R-DISC", "caching reader: key (offset,size) derives Hash+Eq; caches only get/insert/entry/len/clear/clone; values returned are clones", QU.ob_cache, floor=3)
+CACHE = Ob("C03-C1", "R-DISC", "caching reader: key (offset,size) derives Hash+Eq; caches only get/insert/entry/len/clear/clone; values returned are clones", QU.ob_cache, floor=2)
 CACHED_SIBS = Ob("C03-S2", "R-SIB", "plain vs caching reader: same read_node / nodes_overlapping arguments, same read_block_data; cached() keeps info", QU.ob_cached_siblings, floor=3)
 INTERSECT_TOOL = Ob("C04-T1", "R-FLOW", "bigtools intersect: query = the line's (chrom, start, end); every returned entry printed once, unfiltered", QU.ob_intersect_tool)
 INTERVAL_SIBS = Ob("C03-S3", "R-SIB", "get_interval / get_interval_move (and zoom pair) identical; query reaches search and iterator unchanged; iterators consume blocks in order", QU.ob_interval_siblings, floor=9)
